@@ -7,6 +7,8 @@ The extracted bodies are executed symbolically on the abstract index-vector mode
 contracts of Eigen / STL / tensor_t accessors, ghost input element g, ghost slot d, ghost fold gf); every Eigen /
 tensor_t precondition that NDEBUG compiles out is an obligation.  Back end A (CBMC, real memory) for the two generator
 lambdas of sample_with_replacement (element access in bounds, result is an element of the input).
+sample_from_ball (four overloads) is walked over the REALS by specs/C12/ball.py (on top of specs/C06/eig.EigWP: generic coordinate,
+symbolic dimension; bounded stand-ins n = 1..3 in concrete mode).
 
 How the splitter obligations give the property (for every fold; for *all* g, d, gf because they are unconstrained):
   cnt(first)+cnt(second) == [g is an input position]   every input element is copied exactly once, into exactly one part
@@ -397,8 +399,11 @@ def gboost_ctor_target():
 
 
 def gboost_target():
+    # make_rng is mapped although the unchanged sample() never calls it: a generator created inside sample() is then DECIDED (the callee
+    # precondition `rng == the member m_rng` fails) instead of ending as "call not mapped"
+    calls = G_CALLS + [(r'^make_rng\|', 'nv_make_rng({0})'), (r'^ctor\|std::optional<unsigned long>\|', '{0}')]
     f = Fn('gboost_sample', 'src/gboost/sampler.cpp', 'sample', flt='sampler_t::sample', self_struct='struct nv_gsampler',
-           types=G_TYPES, calls=G_CALLS, members=G_MEMBERS)
+           types=G_TYPES + [(r'^nano::seed_t$|^std::optional<unsigned long>$', 'uint64_t')], calls=calls, members=G_MEMBERS, hooks=[make_rng_hook])
     return Target('gboost_sample', [f], GH, replace=['sample_without_replacement', 'sample_with_replacement', 'sample_with_replacement_weighted'])
 
 
@@ -410,6 +415,8 @@ def rsplit_target():
              (r'^nano::rng_t$|linear_congruential_engine', 'struct nv_rng'), (r'splits_t$|^std::vector<std::pair<nano::tensor_t', 'struct nv_splits'),
              (r'^nano::seed_t$|^std::optional<unsigned long>$', 'uint64_t')]
     calls = [(r'^make_rng\|', 'nv_make_rng({0})'), (r'^ctor\|std::optional<unsigned long>\|', '{0}'),
+             # rng_t{seed}: what make_rng(seed) does (src/core/random.cpp)
+             (r'^ctor\|std::linear_congruential_engine<unsigned long, 48271, 0, 2147483647>\|void \(.*result_type\)', 'nv_make_rng({0})'),
              (r'^ctor\|nano::tensor_t<nano::tensor_vector_storage_t, long, 1>\|void \((const )?(long|nano::tensor_size_t)', 'nv_ixa_make({0})'),
              (r'^idiv\|long \(long, int\)', 'idiv_l_i({0}, {1})'), (r'^begin\|', 'nv_begin({&0})'), (r'^end\|', 'nv_end({&0})'),
              (r'^shuffle\|', 'nv_shuffle({0}, {1}, {&2})'), (r'^sort\|void \(long \*, long \*\)', 'nv_sort({0}, {1})'),
@@ -456,8 +463,16 @@ def build(tier):
         vcs += r[0]
         fns.append(r[1])
     vcs += lemmas()
+    import ball
+    try:
+        bvcs, bfns, bounded = ball.build(tier)
+    except (astload.ExtractionError, nvwp.Unsupported) as e:
+        # an extraction break of sample_from_ball is an undecided obligation of its own, not the end of every other C12 target
+        bvcs, bfns, bounded = [VC(f'sample_from_ball/not extracted: {str(e)[:200]}', '(check-sat)', solvers=['none'], about='sample_from_ball: extraction failed')], [], []
+    vcs += bvcs
+    fns += bfns
     return {
-        'targets': lambda_targets() + [gboost_ctor_target(), gboost_target(), rsplit_target()], 'vcs': vcs, 'functions': fns,
+        'targets': lambda_targets() + [gboost_ctor_target(), gboost_target(), rsplit_target()], 'vcs': vcs, 'functions': fns, 'bounded': bounded,
         'decided': [
             'k-fold and random splitter, for every n in [0, 2^56], folds in [2,100], seed, percentage in [10,90], every fold: |train|+|valid| == n; every input element is copied exactly once into exactly one of train/valid and every slot of both is filled exactly once (=> disjoint, union == input for distinct inputs); both parts are sorted by std::sort over their whole range; one pair per fold',
             'k-fold: fold f validates exactly positions [f*chunk, f+1<folds ? (f+1)*chunk : n) of the shuffled input, these ranges tile [0,n) (each element validated by exactly one fold), sizes lie in [chunk, chunk+folds) (differ by less than folds)',
@@ -470,11 +485,20 @@ def build(tier):
             'idiv<long,long> (the instantiation a splitter would use for n / folds style divisions) proved like idiv<long,int>',
             'generator lambdas of sample_with_replacement (CBMC, real memory): the element access is in bounds and the result is an element of the input for every rng state',
             'random splitter again in CBMC/DFCC (cross-check on an independent abstract C model, specs/C12/rsplit.h, n <= 10^6): segment/copy discipline, exactly-once copy and fill, sortedness, per-fold reshuffle with the seeded rng, one pair per fold, loop termination -- everything of the back end B proof except the non-linear rounding clause',
-            'gboost::sampler_t (CBMC): the constructor establishes the weight-vector invariant and seeds the rng from its seed argument; sample(): count = trunc(ratio*n) lies in [0,n], every mode calls the matching sampler inside its precondition and returns its result (subsample: distinct sorted members; bootstrap: sorted members; weighted: sorted members of positive weight with every weight written, in order, and weight(i) = loss / gradient norm of sample i; off: the whole list), all tensor index asserts hold, both loops terminate'],
+            'gboost::sampler_t (CBMC): the constructor establishes the weight-vector invariant and seeds the rng from its seed argument; sample(): count = trunc(ratio*n) lies in [0,n], every mode calls the matching sampler inside its precondition and returns its result (subsample: distinct sorted members; bootstrap: sorted members; weighted: sorted members of positive weight with every weight written, in order, and weight(i) = loss / gradient norm of sample i; off: the whole list), all tensor index asserts hold, both loops terminate',
+            'sample_from_ball, all four overloads (back end B over the REALS, specs/C12/ball.py, symbolic dimension n >= 1 at a generic coordinate): the returned / written point has the dimension of x0 and |x - x0|_2^2 <= radius^2, GIVEN that some Gaussian draw is non-zero; proof chain, each step a named obligation: the coordinate loop visits every coordinate and writes x at the loop index; the squared norm the code takes is the sum of the squared draws (direction_is_gaussian) and hence non-zero (direction_nonzero: the division by the norm is defined); the summand of |x - x0|^2 is a coordinate-independent factor K times the summand of |d|^2 (sum_homogeneity, K found by substitution, its coordinate-independence checked syntactically); 0 <= pow(u, 1/n) <= 1 from 0 <= u <= 1 and 1/n >= 0 (stated fact about pow, instantiated); the parameters handed to the three <random> distributions satisfy their preconditions; the three forwarding overloads call the rng-taking overload inside its preconditions (radius > 0, x0.size() > 0, x0.size() == x.size()) with this call\'s x0 and radius and return / write exactly its point',
+            'sample_from_ball, zero direction: what the code does is 0/0 = NaN in every coordinate; decided natively to be UNREACHABLE with libstdc++ (all 2^31-2 states of std::minstd_rand enumerated: the first draw of a fresh std::normal_distribution<double>{0.5, 2.0} is never 0.0, min |draw| = 1.88e-9): specs/C12/NOTE_ball_zero_direction.md, replay/C12_ball_zero_direction_scan.cpp',
+            'equal seeds give equal splits, closing the frame: besides "every std::shuffle is driven by make_rng(seed) / rng_t{seed} of the splitter::seed parameter", both splitters (and every sampler walked by back end B) keep NO mutable function-local static (no_static_state); a generator that is not a local of the function (namespace-scope / class-static), a seed that is not an expression over the arguments and parameters (global, std::random_device, clock) makes the generator UNSEEDED, so the named seeding obligation fails instead of the extraction breaking',
+            'gboost::sampler_t: every sampler call in sample() is handed THE MEMBER generator m_rng (callee precondition rng == &m_rng), which the constructor seeds from its seed argument and nothing else advances (assigns clause: m_rng, m_weights) => equal seeds and equal call histories give equal samples; a generator created inside sample() (local, static, random_device) fails that precondition by name',
+            'gboost::sampler_t weighted modes: "no weight is negative" (the library\'s assert weights.min() >= 0, at the ghost position = for every position) is now an obligation of the call site and PROVED there: gradient mode from the contract of Eigen\'s lpNorm<2> (never negative), loss mode from the precondition "loss values of training samples are not negative" (C06 proves value >= 0 per loss over the reals)',
+            'n == 0 for sample_with_replacement decided natively (specs/C12/FINDING_sample_with_replacement_empty_input.md): (empty, 0) returns an empty selection in a plain NDEBUG build but constructs std::uniform_int_distribution(0, -1) (abort with _GLIBCXX_ASSERTIONS and in debug builds); (empty, count > 0) is a null read (SIGSEGV); the precondition "non-empty input" is an obligation at the three call sites in gboost::sampler_t::sample, discharged from sampler_t\'s own precondition (non-empty training set)',
+            'all-zero weights decided natively (specs/C12/FINDING_weighted_bootstrap_all_zero_weights.md): std::discrete_distribution\'s precondition is violated, libstdc++ returns `count` copies of the first sample (abort with _GLIBCXX_ASSERTIONS); reachable from the gboost boosting loop with the cauchy loss (exactly 0 for residuals below 1e-8) and gboost::epsilon < 1e-8: replay/C12_zero_weights_demo.cpp on the real loss / early stopping / sampler'],
         'not_decided': [
-            'that std::shuffle/std::sort/std::generate/std::discrete_distribution behave as specified (assumed contracts)',
-            'sample_from_ball (floating-point norm computation: only a real-arithmetic statement would be possible)',
-            'n == 0 for sample_with_replacement: excluded by precondition (make_udist(0, -1) violates the library\'s own assert(min <= max) even for count == 0)'],
+            'that std::shuffle/std::sort/std::generate/std::discrete_distribution/std::normal_distribution/std::uniform_real_distribution/std::pow behave as specified (assumed contracts)',
+            'sample_from_ball in IEEE arithmetic: the proof is over the reals; the stored point can lie outside the ball by the representation error of x0 + delta (measured: |x - x0| / radius - 1 up to 4.3e-5 at centre 1e6, radius 1e-6, n = 50; replay/C12_ball_float_demo.cpp)',
+            'sample_from_ball, bounded stand-ins (labelled, never counted): dimensions n = 1, 2, 3 in concrete mode (no sum facts: the membership inequality itself, quotients named) -- they also DECIDE real violations when the generic-coordinate proof pattern does not apply',
+            'existence of a positive weight (positive total weight, precondition of std::discrete_distribution) at the weighted call sites of gboost::sampler_t::sample: cannot be established there (it holds iff the fit has not converged on the training set); see FINDING_weighted_bootstrap_all_zero_weights.md',
+            'a non-empty training set for gboost::sampler_t (precondition of sample(); nothing in src/gboost/model.cpp establishes it)'],
         'assumptions': [
             'std::shuffle(first,last,rng) permutes [first,last) in place, the permutation being a function of the length and the rng state only',
             'std::sort(first,last) makes [first,last) an ascending permutation of itself',
@@ -491,7 +515,13 @@ def build(tier):
             'the CBMC cross-check of the random splitter uses idiv by a hand-restated contract (same clauses as idiv_requires/idiv_ensures proved in back end B, for denominator 100)',
             'IEEE multiplication is monotone: 0 < a <= 1, b >= 0 => 0 <= fl(a*b) <= b (one axiom on the otherwise uninterpreted product; CBMC needs 93 s to bit-blast it)',
             'every training sample stored in sampler_t::m_samples is a valid sample of the dataset (0 <= s < errors_losses.cols == gradients.dim0); gboost::subsample_ratio in (0,1]; a non-empty training set',
-            'existence of a positive weight / non-negative weights (asserts of the weighted sampler) are not re-established at the call site in sampler_t::sample (they depend on the loss values)',
+            'existence of a positive weight is not re-established at the call site in sampler_t::sample (it depends on the loss values; see not_decided); non-negative weights ARE (proved there)',
+            'gboost::sampler_t::sample, loss-weighted mode: the loss value errors_losses(1, s) of every training sample is not negative (C06 proves value >= 0 for the losses over the reals -- EXCEPT its known finding: s-classnll with ONE output and target -1 returns value = output, which is negative for output < 0, so with that loss the assert weights.min() >= 0 of the library is violated in the loss-weighted mode; gboost::evaluate writes loss_t::value into row 1); Eigen lpNorm<2>() is never negative (it may be NaN / +inf: "no weight is negative" is stated as !(w < 0))',
+            'sample_from_ball: doubles treated as reals; <random> contracts: std::normal_distribution(m, s)(rng) returns some real, std::discrete_distribution({w..})(rng) an index of [0, k), std::uniform_real_distribution(a, b)(rng) a real of [a, b]; every distribution is called with the modelled rng; std::pow uninterpreted with the instantiated fact 0 <= u <= 1 and e >= 0 => 0 <= pow(u, e) <= 1; sqrt uninterpreted with sqrt(u) >= 0 and sqrt(u)^2 == u for u >= 0 (specs/C06/vcgen.py Q1)',
+            'sample_from_ball: Eigen operations of the closed list in specs/C06/eig.py plus lpNorm<2>() == sqrt(sum of squares), vector_t(size) = `size` indeterminate coefficients, x.tensor() = a mutable map of x; x.lpNorm<2>() on the right-hand side is evaluated before the assignment writes x (Eigen evaluates the scalar when the expression is built)',
+            'sample_from_ball: stated facts about finite sums: S1 (a sum of non-negative terms is non-negative; specs/C06/vcgen.py), extensionality (equal summands at every coordinate give equal sums; the summand equality is proved), S2 homogeneity (phi_i == K * psi_i at every coordinate with K the same for every coordinate => sum phi == K * sum psi; the identity is proved, the coordinate-independence of K is checked syntactically: no generic-coordinate leaf, no constant drawn inside the coordinate loop)',
+            'sample_from_ball: HYPOTHESIS "the Gaussian draws are not all exactly 0.0" (sum of the squared normal draws != 0); justified for libstdc++ / std::minstd_rand by exhaustive enumeration (NOTE_ball_zero_direction.md), an assumption for any other standard library',
+            'sample_from_ball: preconditions taken from the library\'s own (NDEBUG-disabled) asserts: radius > 0, x0.size() > 0, x0.size() == x.size(); quotients in the membership VC are named by reciprocals (exact for non-zero divisors; the divisors are obliged non-zero under the same hypotheses)',
             'the multiset argument from (copied exactly once / filled exactly once / sizes add up) to (disjoint, union == input) is a pigeonhole step done on paper (module docstring), not by the solver'],
         'trusted': ['round() in the property statement is read as round-half-away-from-zero (C round), not banker\'s rounding'],
     }
@@ -506,6 +536,8 @@ def replay(rp):
     kind = {'kfold_split': 'kfold', 'random_split': 'random', 'idiv<long,int>': 'random', 'idiv<long,long>': 'kfold', 'sample_without_replacement': 'without',
             'sample_with_replacement': 'with', 'sample_with_replacement_weighted': 'weighted', 'swr_gen': 'with',
             'swr_wgen': 'weighted'}.get(tgt)
+    if tgt.startswith('sample_from_ball'):
+        kind = 'ball'
     if kind is None:
         out['note'] = 'no native driver for this target'
         return out
@@ -518,7 +550,10 @@ def replay(rp):
                 cands.append([kind, m['n'], m.get('p_folds', 5), m.get('p_seed', 42), m.get('p_train_per', 80)])
             elif isinstance(m.get('count'), int) and 0 <= m['count'] <= 5000:
                 cands.append([kind, m['n'], m['count']])
-    if kind in ('kfold', 'random'):
+    if kind == 'ball':
+        # the property's domain: dimensions 1..50, radii 1e-6..1e6 (centre O(1)); 4000 points per run, all four overloads
+        cands = [[kind, n, r] for n in (1, 2, 3, 7, 50) for r in ('1e-6', '1e-2', '1', '1e3', '1e6')]
+    elif kind in ('kfold', 'random'):
         cands += [[kind, n, f, s, p] for n in range(0, 41) for f in range(2, 13) for s, p in ((42, 80), (0, 10), (1024, 55))]
     elif kind == 'weighted':
         # weights are only meaningful up to scale: ordinary and tiny magnitudes
